@@ -52,6 +52,43 @@ def checksum (hrp : List Char) (data : List Nat) : List Nat :=
   let pm := polymod (hrpExpand hrp ++ data ++ [0, 0, 0, 0, 0, 0]) ^^^ 1
   [pm / 32 ^ 5 % 32, pm / 32 ^ 4 % 32, pm / 32 ^ 3 % 32, pm / 32 ^ 2 % 32, pm / 32 % 32, pm % 32]
 
+/-! ### the same checksum as a BCH code over GF(32)
+
+BIP173: the checksum is a BCH code over GF(32) = GF(2)[a]/(a⁵ + a³ + 1) with generator polynomial
+g(x) = x⁶ + {29}x⁵ + {22}x⁴ + {20}x³ + {21}x² + {29}x + {18}.  A 5-bit value is the field element
+whose bits are its coefficients; the 30-bit state is the residue polynomial c₅x⁵ + … + c₀. -/
+
+/-- multiplication by `a` in GF(32): shift, reduce by a⁵ + a³ + 1 (`0b101001`) -/
+def gfMulA (e : Nat) : Nat := if 16 ≤ e then (2 * e) ^^^ 41 else 2 * e
+
+/-- product of two field elements (shift-and-add over the bits of `t`) -/
+def gfMul (t e : Nat) : Nat :=
+  (if t % 2 = 1 then e else 0)
+    ^^^ (if t / 2 % 2 = 1 then gfMulA e else 0)
+    ^^^ (if t / 4 % 2 = 1 then gfMulA (gfMulA e) else 0)
+    ^^^ (if t / 8 % 2 = 1 then gfMulA (gfMulA (gfMulA e)) else 0)
+    ^^^ (if t / 16 % 2 = 1 then gfMulA (gfMulA (gfMulA (gfMulA e))) else 0)
+
+/-- coefficients of g(x) below x⁶, highest first -/
+def bchGen : List Nat := [29, 22, 20, 21, 29, 18]
+
+/-- residue state: coefficients c₅ … c₀ -/
+structure Residue where
+  (c5 c4 c3 c2 c1 c0 : Nat)
+deriving DecidableEq, Repr
+
+/-- `c(x) ↦ c(x)·x + v  mod g(x)` -/
+def bchStep (r : Residue) (v : Nat) : Residue :=
+  { c5 := r.c4 ^^^ gfMul r.c5 29, c4 := r.c3 ^^^ gfMul r.c5 22, c3 := r.c2 ^^^ gfMul r.c5 20,
+    c2 := r.c1 ^^^ gfMul r.c5 21, c1 := r.c0 ^^^ gfMul r.c5 29, c0 := v ^^^ gfMul r.c5 18 }
+
+/-- residue of `x^n + Σ vᵢ x^(n-1-i)` modulo g(x), starting from the constant polynomial 1 -/
+def bchResidue (values : List Nat) : Residue := values.foldl bchStep ⟨0, 0, 0, 0, 0, 1⟩
+
+/-- the six 5-bit coefficients packed in a 30-bit state -/
+def unpack (c : Nat) : Residue :=
+  ⟨c / 2 ^ 25 % 32, c / 2 ^ 20 % 32, c / 2 ^ 15 % 32, c / 2 ^ 10 % 32, c / 2 ^ 5 % 32, c % 32⟩
+
 /-! ### characters -/
 
 /-- the character of a data value (`none` for values ≥ 32) -/
